@@ -466,6 +466,20 @@ func ruleV1(c *Ctx) {
 	c.expectMin("V1", 12)
 }
 
+// V6: every completed Contact / P-Asserted-Identity value updates the running per-header extent (shared with the
+// must-pass analysis of C13-K3): no completion path skips the restart-or-extend of LastHVal, which ParseHdrLine
+// copies into Hdr.Val.
+func ruleV6(c *Ctx) {
+	t := &Ctx{Prog: c.Prog, Prop: c.Prop}
+	ruleK3path(t, "V6", "ParseAllContactValues ParseAllPAIValues")
+	for _, o := range t.obls {
+		if strings.Contains(o.Key, "LastHVal") {
+			c.obls = append(c.obls, o)
+		}
+	}
+	c.expectMin("V6", 2)
+}
+
 func init() {
 	register(&PropDef{
 		ID: "C05",
@@ -473,6 +487,7 @@ func init() {
 			{"V1", "framing views are the returned offset: on every definitive return of ParseSIPMsg the body starts where the headers ended and is extended to the returned offset, Buf = buf[0:ret], RawMsg = Buf[msg.offs:ret]; msg.offs is stored once, in state Init, from the offs parameter", ruleV1},
 			{"V2", "Hdr.Val comes from the value object of the same header: the 8 typed branches of the first call and the 8 resume cases of ParseHdrLine use the same getter, the same parser and copy the same value field, which belongs to the object passed to the parser", ruleV2},
 			{"V4", "a running per-header extent (LastHVal of the Contact / P-Asserted-Identity lists: restarted from the element just parsed, extended otherwise, copied into Hdr.Val) restarts under a test of the header counter that the header-line parser advances on a new header, so the value of a repeated header never spans back to the previous header of that type", ruleV4},
+			{"V6", "every completion path of ParseAllContactValues / ParseAllPAIValues (verdict 0 or more-values) passes the restart-or-extend of LastHVal before the next value / the return (SSA must-pass), so Hdr.Val of the header always covers the value just completed", ruleV6},
 			{"V5", "trimming survives a suspension: in every state of the 5 extracted automata that a more-bytes exit persists together with an offset already advanced by the whitespace skipper, no transition taken on a whitespace byte or at buffer end closes a span at the bare scan index (Extend(i) / Set(a,i) / *end=i) — after a resume the index is past the trailing blanks and they would become part of the value", ruleV5},
 			{"V3", "nesting by sibling agreement on the completing exits of the extracted automata: an exit that extends Params (or closes the URI) extends the whole value V to the same end; the tag is the parameter value span; the CSeq number starts V and the method ends it", ruleV3},
 		},
